@@ -7,6 +7,7 @@ package main
 
 import (
 	"fmt"
+	"math"
 	"strings"
 	"time"
 )
@@ -37,6 +38,12 @@ func init() {
 	extend("C09", gap7MixedCase("C09"))
 	extend("C17seq", gap7MixedCase("C17"))
 	extend("C20", gap7C20)
+	extend("C06", gap8C06)
+	extend("C07", gap8EmptyName("C07"))
+	extend("C20", gap8EmptyName("C20"))
+	extend("C08", gap8EmptyName("C08"))
+	extend("C15", gap8C15)
+	extend("C20", gap8C20)
 	extend("C02", gap6C02)
 	extend("C03", gap6C03)
 	extend("C04", gap6C04)
@@ -928,7 +935,8 @@ func gap7C04(g *Gen, tier string, res *GenOutput) {
 // column names in mixed case: the library's column order is byte order ("B" < "a"), everywhere
 func gap7MixedCase(prop string) func(g *Gen, tier string, res *GenOutput) {
 	return func(g *Gen, tier string, res *GenOutput) {
-		sets := [][]string{{"Name", "age"}, {"ID", "Score", "city"}, {"B", "a"}, {"k", "K"}, {"b", "A", "a", "B"}}
+		sets := [][]string{{"Name", "age"}, {"ID", "Score", "city"}, {"B", "a"}, {"k", "K"}, {"b", "A", "a", "B"},
+			{"q1", "q2", "q10"}, {"2024", "31", "4"}, {"col10", "col9", "col09"}} // byte order, not "natural" order
 		one, zero := []int64{1}, []int64{0}
 		for _, names := range sets {
 			cols := []Col{}
@@ -990,4 +998,98 @@ func gap7C20(g *Gen, tier string, res *GenOutput) {
 			bump(res.Stats, "several-direction-flags")
 		}
 	}
+}
+
+// ---- streams added after the eighth round of seeded changes (helpers, results and errors, promises) ----
+
+// C06: text that starts with digits but is not a number (dates, times, addresses) is ordered as text
+func gap8C06(g *Gen, tier string, res *GenOutput) {
+	t, fl := true, false
+	pools := [][]string{{"2024-03-01", "2024-01-15", "2023-12-31", "2024-01-02", "2024-10-01"}, {"10:45", "9:30", "10:05", "23:59", "1:00"},
+		{"12 Oak Avenue", "3rd", "12 kg", "45%", "12b", "120 Main"}, {"1st", "2nd", "10th", "11th", "3rd"}}
+	for _, pool := range pools {
+		for i := 0; i < scale(tier, 3, 12); i++ {
+			s0 := Col{Key: "s0", Name: "s0", Data: []Cell{}}
+			id := Col{Key: "id", Name: "id", Data: []Cell{}}
+			n := 4 + g.r.Intn(14)
+			for j := 0; j < n; j++ {
+				if g.chance(0.15) {
+					s0.Data = append(s0.Data, NilCell())
+				} else {
+					s0.Data = append(s0.Data, StrCell(pool[g.r.Intn(len(pool))]))
+				}
+				id.Data = append(id.Data, IntCell("int", int64(j)))
+			}
+			ops := []Op{{K: "sort", F: 0, Strs: []BStr{"s0"}, Asc: &t}, {K: "sort", F: 0, Strs: []BStr{"s0"}, Asc: &fl}}
+			res.Hists = append(res.Hists, RunHist("digit-leading-text", []Frame{mkFrame(s0, id)}, ops))
+			bump(res.Stats, "digit-leading-text")
+		}
+	}
+}
+
+// a column whose name is the empty string (a CSV with a blank header field gives one) is a column like any other
+func gap8EmptyName(prop string) func(g *Gen, tier string, res *GenOutput) {
+	return func(g *Gen, tier string, res *GenOutput) {
+		f := mkFrame(Col{Key: "", Name: "", Data: []Cell{IntCell("int", 0), IntCell("int", 1), IntCell("int", 2), IntCell("int", 3)}},
+			strCol("city", "Oslo", "Rome", "Oslo", "Rome"), intCol("temp", 1, 2, 1, 2))
+		var ops []Op
+		switch prop {
+		case "C07":
+			ops = []Op{{K: "dedup", F: 0, HasOpt: true, Strs: []BStr{"city"}, S1: "first"}, {K: "dedup", F: 0, HasOpt: true, Strs: []BStr{"city", "temp"}, S1: "last"},
+				{K: "dedup", F: 0}, {K: "dedup", F: 0, HasOpt: true, Strs: []BStr{""}, S1: "none"}, {K: "dedupinplace", F: 0, Strs: []BStr{"city"}, S1: "first"}}
+		case "C08":
+			ops = []Op{{K: "columnnames", F: 0}, {K: "row", F: 0, N: 1}, {K: "select", F: 0, S1: ""}, {K: "multiselect", F: 0, Strs: []BStr{"", "city"}}, {K: "head", F: 0, N: 2},
+				{K: "iloc", F: 0, Ints: []int64{1}, Ints2: []int64{0, 1}}, {K: "dropcolumn", F: 0, S1: ""}}
+		default:
+			half := F64Cell(0.5)
+			ops = []Op{{K: "appendrow", F: 0, Row: []KV{{K: "", V: half}, {K: "city", V: StrCell("d")}, {K: "extra", V: BoolCell(true)}}},
+				{K: "appendrow", F: 1, Row: []KV{{K: "", V: half}, {K: "extra", V: BoolCell(true)}, {K: "id", V: IntCell("int", 4)}, {K: "name", V: StrCell("d")}}},
+				{K: "appendrow", F: 1, Row: []KV{{K: " ", V: half}, {K: "more", V: half}}}, {K: "addcolumn", F: 1, S1: "", Cells: []Cell{half, half, half, half, half}},
+				{K: "rename", F: 0, S1: "city", S2: ""}, {K: "sort", F: 0, Strs: []BStr{""}}, {K: "astype", F: 0, S1: "", S2: "string"}}
+		}
+		frames := []Frame{f}
+		if prop == "C20" {
+			frames = append(frames, mkFrame(intCol("id", 1, 2, 3), strCol("name", "a", "b", "c")))
+		}
+		res.Hists = append(res.Hists, RunHist("column-named-empty-string", frames, ops))
+		bump(res.Stats, "column-named-empty-string")
+	}
+}
+
+// C15: NaN is a value, not a missing cell
+func gap8C15(g *Gen, tier string, res *GenOutput) {
+	nan := F64Cell(math.NaN())
+	zero := IntCell("int", 0)
+	for _, x := range [][]Cell{{F64Cell(1.5), nan, F64Cell(3.5), F64Cell(4.5)}, {nan, F64Cell(2), nan}, {nan, NilCell(), F64Cell(1), nan}} {
+		id := Col{Key: "id", Name: "id", Data: []Cell{}}
+		s := Col{Key: "s", Name: "s", Data: []Cell{}}
+		for i := range x {
+			id.Data = append(id.Data, IntCell("int", int64(i)))
+			if i == 2 && len(x) == 4 {
+				s.Data = append(s.Data, NilCell())
+			} else {
+				s.Data = append(s.Data, StrCell("a"))
+			}
+		}
+		f := mkFrame(id, Col{Key: "x", Name: "x", Data: x}, s)
+		ops := []Op{{K: "dropna", F: 0}, {K: "nrows", F: 0}, {K: "fillna", F: 0, Cell: &zero}, {K: "row", F: 0, N: 0}}
+		res.Hists = append(res.Hists, RunHist("nan-is-not-missing", []Frame{f}, ops))
+		bump(res.Stats, "nan-is-not-missing")
+	}
+}
+
+// C20: Add between frames with the same columns and different heights, in both directions, with and without a
+// fill value
+func gap8C20(g *Gen, tier string, res *GenOutput) {
+	long := mkFrame(intCol("a", 1, 2, 3), Col{Key: "b", Name: "b", Data: []Cell{F64Cell(0.5), StrCell("x"), NilCell()}})
+	short := mkFrame(intCol("a", 10, 20), Col{Key: "b", Name: "b", Data: []Cell{IntCell("int", 1), StrCell("y")}})
+	empty := mkFrame(Col{Key: "a", Name: "a", Data: []Cell{}}, Col{Key: "b", Name: "b", Data: []Cell{}})
+	zero, txt := IntCell("int", 0), StrCell("x")
+	ops := []Op{}
+	for _, pr := range [][2]int{{0, 1}, {1, 0}, {0, 2}, {2, 0}, {1, 2}, {2, 1}, {2, 2}} {
+		ops = append(ops, Op{K: "add", F: pr[0], G: pr[1]}, Op{K: "add", F: pr[0], G: pr[1], Fill: &zero}, Op{K: "add", F: pr[0], G: pr[1], Fill: &txt})
+	}
+	res.Hists = append(res.Hists, RunHist("add-different-heights", []Frame{long, short, empty}, ops[:11]))
+	res.Hists = append(res.Hists, RunHist("add-different-heights", []Frame{long, short, empty}, ops[11:]))
+	bump(res.Stats, "add-different-heights")
 }
